@@ -415,6 +415,112 @@ where
             ctx.sample(|| jobj! {"type" => name, "data" => format!("{:02x?}", data), "items" => format!("{:x?}", want), "ops" => trace.clone()});
         }
     });
+
+    // display-scale buffers (a 480 x 320 RGB888 image has 460 800 bytes): pixel counts, positions and
+    // size hints far beyond the small sweeps above (added after seeded `C11-12`, a reciprocal
+    // multiplication instead of `len / 3` that is exact below 131 072 bytes)
+    let gen_large: &'static str = Box::leak(format!("{}-large-buffers", name).into_boxed_str());
+    let mut big: Vec<usize> = Vec::new();
+    for k in 10..=run.tier(21u32, 24u32) {
+        for d in 0..4usize {
+            big.push((1usize << k) + d);
+            big.push((1usize << k) - 1 - d);
+            big.push(3 * (1usize << k) / 2 + d);
+        }
+    }
+    for (w, h) in [(128usize, 64usize), (240, 240), (320, 240), (480, 320), (512, 256), (640, 480), (800, 480), (1024, 600)] {
+        for bytes in [1usize, 2, 3, 4] {
+            for d in 0..3usize {
+                big.push(w * h * bytes + d);
+                big.push(w * h / 8 * bytes + d);
+            }
+        }
+    }
+    let fixed = big.len() as u64;
+    let n_large = fixed + run.tier(150u64, 6000u64);
+    let big_max = run.tier(1usize << 22, 1usize << 25);
+    run.generate(gen_large, n_large, false, 0.15, |ctx, idx, rng| {
+        let len = if idx < fixed { big[idx as usize] } else if rng.chance(1, 2) { rng.usizer(1000, 1 << 19) } else { rng.usizer(1 << 17, big_max) };
+        let salt = rng.below(251) as usize;
+        let data: Vec<u8> = (0..len).map(|i| (i.wrapping_mul(131).wrapping_add(i >> 8).wrapping_add(salt)) as u8).collect();
+        let count = pixel_count(len, bpp);
+        let case = |extra: &str| format!("{} buffer of {} bytes (byte i = (131 i + (i >> 8) + {}) mod 256) {}", name, len, salt, extra);
+        let alt = O::IS_ALTERNATE_ORDER;
+        let bracket = |sh: (usize, Option<usize>), remaining: usize| !(sh.0 > remaining || sh.1.map(|h| h < remaining).unwrap_or(false));
+        ctx.eval();
+        let sh = RawDataSlice::<R, O>::new(&data).into_iter().size_hint();
+        if !bracket(sh, count) {
+            ctx.violation(format!("{}|size_hint-wrong|large-buffer", name), || case("fresh iterator"), || format!("size_hint = {:?} but {} items remain", sh, count));
+            return;
+        }
+        let mut positions: Vec<usize> = vec![0, 1, count / 3, count / 2, count.saturating_sub(3), count.saturating_sub(2), count.saturating_sub(1), count, count + 1];
+        for _ in 0..6 {
+            positions.push(rng.usizer(0, count + 2));
+        }
+        for &k in &positions {
+            ctx.eval();
+            let l: Option<u32> = R::load::<O>(&data, k).map(|r| r.into_inner().into());
+            let w = model_load(&data, bpp, alt, k);
+            if l != w {
+                ctx.violation(format!("{}|load-layout|large-buffer", name), || case(&format!("index {}", k)), || format!("load = {:x?} expected {:x?}", l, w));
+                return;
+            }
+            let mut it = RawDataSlice::<R, O>::new(&data).into_iter();
+            let g: Option<u32> = it.nth(k).map(|r| r.into_inner().into());
+            if g != w {
+                ctx.violation(format!("{}|position-after-next-nth|large-buffer", name), || case(&format!("nth({}) on a fresh iterator", k)), || format!("returned {:x?}, expected {:x?}", g, w));
+                return;
+            }
+            let remaining = if k < count { count - k - 1 } else { 0 };
+            let sh = it.size_hint();
+            if !bracket(sh, remaining) {
+                ctx.violation(format!("{}|size_hint-wrong|large-buffer", name), || case(&format!("after nth({})", k)), || format!("size_hint = {:?} but {} items remain", sh, remaining));
+                return;
+            }
+            let g2: Option<u32> = it.next().map(|r| r.into_inner().into());
+            let w2 = if k < count { model_load(&data, bpp, alt, k + 1) } else { None };
+            if g2 != w2 {
+                ctx.violation(format!("{}|position-after-next-nth|large-buffer", name), || case(&format!("nth({}), next()", k)), || format!("returned {:x?}, expected {:x?}", g2, w2));
+                return;
+            }
+            // the tail seen through count() and last() (bounded: at most 4096 items from the end)
+            if k < count && count - k <= 4096 {
+                let positioned = || {
+                    let mut it = RawDataSlice::<R, O>::new(&data).into_iter();
+                    if k > 0 {
+                        it.nth(k - 1);
+                    }
+                    it
+                };
+                let c: usize = positioned().count();
+                let la: Option<u32> = positioned().last().map(|r| r.into_inner().into());
+                if c != count - k || la != model_load(&data, bpp, alt, count - 1) {
+                    ctx.violation(format!("{}|iterator-consumed-differently|large-buffer", name), || case(&format!("positioned before item {}", k)), || format!("count() = {} (expected {}), last() = {:x?} (expected {:x?})", c, count - k, la, model_load(&data, bpp, alt, count - 1)));
+                    return;
+                }
+            }
+        }
+        // store near the end and just beyond
+        for &k in &[count.saturating_sub(1), count, count / 2] {
+            ctx.eval();
+            let mut b = data.clone();
+            let v = rng.next_u32();
+            let ok = R::from_u32(v).store::<O>(&mut b, k).is_ok();
+            let mut m = data.clone();
+            let mok = model_store(&mut m, bpp, alt, k, v & (if bpp >= 32 { u32::MAX } else { (1u32 << bpp) - 1 }));
+            if ok != mok || b != m {
+                let diff = b.iter().zip(m.iter()).position(|(a, c)| a != c);
+                ctx.violation(format!("{}|store-layout|large-buffer", name), || case(&format!("store {:#x} at index {}", v, k)), || format!("store ok = {} (expected {}), first differing byte {:?}", ok, mok, diff));
+                return;
+            }
+        }
+        ctx.nontrivial(mix(egmon::rng::hash_str(gen_large), len as u64));
+        ctx.count("large_buffers_checked", 1);
+        ctx.count("large_buffer_bytes", len as u64);
+        if ctx.wants_sample() {
+            ctx.sample(|| jobj! {"type" => name, "buffer_bytes" => len as u64, "pixels" => count as u64, "size_hint" => format!("{:?}", sh)});
+        }
+    });
 }
 
 fn main() {
